@@ -323,6 +323,21 @@ pub fn sample_settings(rng: &mut Rng) -> Settings {
     s
 }
 
+/// Wide, ASYMMETRIC tolerances: all twelve (full and reduced; gap abs/rel, feas, infeas abs/rel,
+/// ktratio) drawn independently from sets several decades apart, so that the two members of every
+/// pair are usually far from each other and a swapped or duplicated field changes a verdict.
+pub fn sample_settings_wide(rng: &mut Rng) -> Settings {
+    let mut s = sample_settings(rng);
+    let w = [1e-2, 1e-5, 1e-8, 1e-11];
+    s.tol_gap_abs = *rng.pick(&w); s.tol_gap_rel = *rng.pick(&w); s.tol_feas = *rng.pick(&w);
+    s.tol_infeas_abs = *rng.pick(&w); s.tol_infeas_rel = *rng.pick(&w);
+    s.tol_ktratio = *rng.pick(&[1e-4, 1e-6, 1e-8]);
+    s.reduced_tol_gap_abs = *rng.pick(&w); s.reduced_tol_gap_rel = *rng.pick(&w); s.reduced_tol_feas = *rng.pick(&w);
+    s.reduced_tol_infeas_abs = *rng.pick(&w); s.reduced_tol_infeas_rel = *rng.pick(&w);
+    s.reduced_tol_ktratio = *rng.pick(&[1e-2, 1e-4, 1e-6]);
+    s
+}
+
 // ------------------------------------------------------------------------------------------
 // problems
 // ------------------------------------------------------------------------------------------
@@ -695,6 +710,18 @@ pub fn stream(rng: &mut Rng, idx: usize, max_size: usize) -> Problem {
     if fam == 14 && rng.chance(1, 2) { p.settings.static_reg = false; p.settings.dynamic_reg = false; }
     if rng.chance(1, 5) { let ex = if rng.chance(1, 2) { 20 } else { 8 }; badly_scale(rng, &mut p, ex); }
     if rng.chance(1, 5) { let k = 1 + rng.below(3); add_inf_bounds(rng, &mut p, k); }
+    if idx % 3 == 1 {
+        // asymmetric tolerances (full and reduced), objective scaled so that gap_abs and gap_rel are
+        // decades apart, and usually a budget that cuts the iteration off in mid-convergence
+        let keep = p.settings.clone();
+        p.settings = sample_settings_wide(rng);
+        p.settings.equilibrate = keep.equilibrate; p.settings.presolve = keep.presolve; p.settings.method = keep.method.clone();
+        let sc = *rng.pick(&[1.0, 1e3, 1e6]);
+        for e in p.P.ents.iter_mut() { e.2 *= sc; }
+        for v in p.q.iter_mut() { *v *= sc; }
+        if rng.chance(2, 3) { p.settings.max_iter = 3 + rng.below(12) as u32; }
+        p.label = format!("{} + wide asymmetric tolerances, objective x{:e}", p.label, sc);
+    }
     match fam {
         15 => { p.settings.max_iter = rng.below(6) as u32; p.label += " + tiny max_iter"; }
         16 => { p.settings.time_limit = 0.0; p.label += " + time_limit 0"; }
